@@ -347,7 +347,7 @@ def _envelopes_list(it, env):
     return shapes.make(it, shapes.AbsListT(shapes.InstT(lambda it_: [VClass(info=it_.get_class(FE, "SuitEnvelope"))])), "envelopes")
 
 
-c = Contract(FI, "ImageCreator._create_suit_storage_files_for_boot", ["C07"])
+c = Contract(FI, "ImageCreator._create_suit_storage_files_for_boot", ["C07", "C13"])
 c.param("envelopes", Computed(_envelopes_list))
 c.param("storage_address", Int(0, 2 ** 32 - 1))
 c.param("dir_name", Str())
@@ -365,6 +365,25 @@ def _boot_files_checks(it, ctx, dir_arg="dir_name"):
     writes = [(i, t) for i, t in enumerate(it.trace) if t[0] in _WRITES]
     adds = [(i, t) for i, t in calls if t[1] == "EnvelopeStorage.add_envelope"]
     goals = [("every_add_envelope_precedes_every_file_write", z3.BoolVal(all(i < j for i, _ in adds for j, _ in writes)))]
+    # the storage is constructed ONCE, for the requested SoC, at the given address and WITH the given build configuration
+    inits = [t for _, t in calls if t[1] == "EnvelopeStorage.__init__"]
+    if inits or ctx.outcome == "return":
+        soc = ctx.arg("soc")
+        socs = {"nrf54h20": "EnvelopeStorageNrf54h20", "nrf9280": "EnvelopeStorageNrf9280"}
+        want_cls = socs.get(getattr(soc, "conc", None))
+        if want_cls is None and hasattr(soc, "e"):  # a symbolic SoC string decided by the path
+            want_cls = next((cn for nm, cn in socs.items() if it.must(soc.e == z3.StringVal(nm))), None)
+        ok = len(inits) == 1
+        if ok:
+            a = inits[0][2]
+            ld = a.get("load_defaults")
+            def same(x, y):
+                if isinstance(x, VNone) or isinstance(y, VNone):
+                    return isinstance(x, VNone) and isinstance(y, VNone)
+                return hasattr(x, "e") and hasattr(y, "e") and type(x) is type(y) and z3.eq(z3.simplify(x.e), z3.simplify(y.e))
+            ok = (same(a["base_address"], ctx.arg("storage_address")) and same(a["kconfig"], ctx.arg("config_file")) and getattr(ld, "conc", None) is True
+                  and want_cls is not None and getattr(a["self"].cls, "name", None) == want_cls)
+        goals.append(("storage_constructed_for_the_soc_with_the_address_and_the_build_configuration", z3.BoolVal(ok)))
     if ctx.outcome == "raise":
         if not hexcalls:
             # rejected by the constructor, by add_envelope, or as an unknown SoC: nothing was written
@@ -693,6 +712,22 @@ def bounded(ctx):
                 check(soc2, outdir, {role: f2}, 0x0E1ED000, case)
             except Exception as e:  # noqa: BLE001
                 B.fail("kconfig-assignment-applies-to-the-named-pair", case, f"{type(e).__name__}: {e}")
+    # history in one process: the SAME configuration path with other contents (a rewritten .config) - the second run obeys the second contents
+    cfg3 = f"{d}/kconfig_rewritten"
+    fa, fb = make("acme.com", "first_app", "hist_a"), make("acme.com", "second_app", "hist_b")
+    case = {"kconfig": "same path, rewritten between two runs: APP_LOCAL_2 -> acme.com/first_app, then APP_LOCAL_2 -> acme.com/second_app"}
+    B.case("kconfig-rewritten", sample=case)
+    try:
+        open(cfg3, "w").write('SB_CONFIG_SUIT_MPI_APP_LOCAL_2_VENDOR_NAME="acme.com"\nSB_CONFIG_SUIT_MPI_APP_LOCAL_2_CLASS_NAME="first_app"\n')
+        outdir = B.fresh_dir("out")
+        img.ImageCreator.create_files_for_boot([fa], outdir, 0x0E1ED000, cfg3, "nrf54h20")
+        check("nrf54h20", outdir, {"APP_LOCAL_2": fa}, 0x0E1ED000, case)
+        open(cfg3, "w").write('SB_CONFIG_SUIT_MPI_APP_LOCAL_2_VENDOR_NAME="acme.com"\nSB_CONFIG_SUIT_MPI_APP_LOCAL_2_CLASS_NAME="second_app"\n')
+        outdir = B.fresh_dir("out")
+        img.ImageCreator.create_files_for_boot([fb], outdir, 0x0E1ED000, cfg3, "nrf54h20")
+        check("nrf54h20", outdir, {"APP_LOCAL_2": fb}, 0x0E1ED000, case)
+    except Exception as e:  # noqa: BLE001
+        B.fail("kconfig-assignment-applies", case, f"second run with a rewritten configuration: {type(e).__name__}: {e}")
     return B.done()
 
 
